@@ -49,25 +49,35 @@ pub fn constructed(r: &mut Rng, tight_domains: bool) -> LinearModel {
         m.add_variable(&format!("x{}", i), t);
     }
     let is_min = r.chance(1, 2);
+    // row names: plain (`a0`), or the names the linearizer gives to constraints that SHARE a source name
+    // (`need`, `need__2`, `need__3`: a `for`-quantified or repeated named constraint) — user rows whose names contain `__`
+    let family_names = r.chance(1, 3);
+    let mut fam_k = 0;
+    let mut row_name = |r: &mut Rng, plain: String| -> String {
+        if r.chance(1, 6) { return String::new(); }
+        if family_names { fam_k += 1; if fam_k == 1 { "need".to_string() } else { format!("need__{}", fam_k) } } else { plain }
+    };
     let mut obj = vec![0.0; n];
     let mut named = 0;
     for (k, a) in rows.iter().enumerate() {
         let rel = gen_lp::cmp3(r, 30);
         // multiplier of the row in the MIN form: >= rows need y > 0, <= rows y < 0, = rows any non-zero sign
-        // mostly multipliers of magnitude 1..3; every third row a TINY but non-zero one (1e-5 .. 9e-5): a price that a
+        // mostly multipliers of magnitude 1..3; every third row a TINY but non-zero one (2e-5 .. 9e-5): a price that a
         // "noise threshold" would wrongly flatten to zero
-        let mag = if r.chance(1, 3) { (1 + r.below(9)) as f64 * 1e-5 } else { 1.0 + r.below(3) as f64 };
+        let mag = if r.chance(1, 3) { (2 + r.below(8)) as f64 * 1e-5 } else { 1.0 + r.below(3) as f64 };
         let y = match rel { Comparison::GreaterOrEqual => mag, Comparison::LessOrEqual => -mag, _ => if r.chance(1, 2) { mag } else { -mag } };
         for j in 0..n { obj[j] += y * a[j]; }
         let rhs: f64 = a.iter().zip(&x0).map(|(p, q)| p * q).sum();
-        let name = if r.chance(1, 6) { String::new() } else { named += 1; format!("a{}", k) };
+        let name = row_name(r, format!("a{}", k));
+        if !name.is_empty() { named += 1; }
         m.add_named_constraint(a.clone(), rel, rhs, &name);
     }
     for k in 0..r.below(3) {
-        let a: Vec<f64> = (0..n).map(|_| r.range(-3, 3) as f64).collect();
+        // never a constant row: the compiler drops tautologies, which would shift the `need__k` numbering of the family
+        let a: Vec<f64> = loop { let a: Vec<f64> = (0..n).map(|_| r.range(-3, 3) as f64).collect(); if a.iter().any(|c| *c != 0.0) { break a; } };
         let act: f64 = a.iter().zip(&x0).map(|(p, q)| p * q).sum();
         let (rel, rhs) = if r.chance(1, 2) { (Comparison::LessOrEqual, act + 1.0 + r.below(3) as f64) } else { (Comparison::GreaterOrEqual, act - 1.0 - r.below(3) as f64) };
-        let name = if r.chance(1, 6) { String::new() } else { format!("i{}", k) };
+        let name = row_name(r, format!("i{}", k));
         m.add_named_constraint(a, rel, rhs, &name);
     }
     let _ = named;
@@ -94,7 +104,9 @@ pub fn compile(lm: &LinearModel) -> Option<LinearModel> {
         dv.increment_usage();
         domain.insert(n.clone(), dv);
     }
-    let cons = lm.constraints().iter().map(|r| Constraint::new(lin_exp(r.coefficients(), vars), *r.constraint_type(), Exp::Number(r.rhs()), r.name())).collect();
+    // rows called `need__k` go in under the SHARED source name `need`: the linearizer itself renames them
+    let source_name = |n: String| match n.rfind("__") { Some(i) if i > 0 && n[i + 2..].chars().all(|c| c.is_ascii_digit()) && i + 2 < n.len() => n[..i].to_string(), _ => n };
+    let cons = lm.constraints().iter().map(|r| Constraint::new(lin_exp(r.coefficients(), vars), *r.constraint_type(), Exp::Number(r.rhs()), source_name(r.name()))).collect();
     let obj = Objective::new(lm.optimization_type().clone(), lin_exp(lm.objective(), vars));
     let model = Model::new(obj, cons, domain);
     std::panic::catch_unwind(|| Linearizer::linearize(model).ok()).ok().flatten()
@@ -117,6 +129,12 @@ fn push_case(lm: &LinearModel, solved: &LinearModel, stream: &str, compiled: boo
         c.tags.push(format!("row-{}{}", sx::cmp(*r.constraint_type()), if r.name().is_empty() { "-unnamed" } else { "" }));
     }
     if compiled && sx::domain(lm.domain()) != sx::domain(solved.domain()) { c.tags.push("derived-bounds-tighten-domain".into()); }
+    if lm.constraints().iter().any(|r| r.name().contains("__")) { c.tags.push("row-names-with-double-underscore".into()); }
+    if compiled {
+        let a: Vec<String> = lm.constraints().iter().map(|r| r.name()).filter(|n| !n.is_empty()).collect();
+        let b: Vec<String> = solved.constraints().iter().map(|r| r.name()).filter(|n| !n.is_empty()).collect();
+        c.tags.push(if a.iter().all(|n| b.contains(n)) { "compiled-row-names-preserved".into() } else { "compiled-row-names-differ".into() });
+    }
     c.tags.sort();
     c.tags.dedup();
     c.nontrivial = matches!(&o, Outcome::Solution(s) if !s.duals.is_empty());
